@@ -33,7 +33,7 @@ OPS = [
     (r'\(self, other\)', '(other, self)'), (r'!contains_copy', 'contains_copy'), (r'if !', 'if '), (r'\bfirst\b', 'last'),
     (r'isize::MIN', 'isize::MAX'), (r'\.iter\(\)\.enumerate\(\)', '.iter().rev().enumerate()'), (r'\.values\(\)', '.values().rev()'),
     (r'Ordering::Equal', 'Ordering::Less'), (r'Ordering::Less', 'Ordering::Greater'), (r'Option::Some\(', 'Option::None.or(::core::option::Option::Some('),
-    (r'size_of::<Self>\(\)', 'size_of::<Self>() / 2'), (r'\.push\(', '.insert(0, '), (r'return expr;', ''), (r'\.skip\(1\)', '.skip(0)'),
+    (r'size_of::<Self>\(\)', 'size_of::<Self>() / 2'), (r'return expr;', ''), (r'\.skip\(1\)', '.skip(0)'),
 ]
 DELETE_STMT = re.compile(r'^\s*[a-z_][a-z_0-9.]*\s*(=|\+=)\s*[^;]*;\s*$')    # simple assignments: `all_unit = false;`
 
@@ -76,7 +76,7 @@ def candidates():
             in_doc = False
             for i, l in enumerate(lines):
                 st = l.strip()
-                if st.startswith('//') or st.startswith('#[') or st.startswith('use ') or 'correct_usage' in l or 'format!' in l or st.startswith('"'):
+                if st.startswith('//') or st.startswith('#[') or st.startswith('use ') or 'correct_usage' in l or 'format!' in l or st.startswith('"') or 'enable_' in l or 'debug_assert' in l:
                     continue
                 if rel == 'src/lib.rs' and i < 1890:
                     continue    # crate documentation
